@@ -70,35 +70,52 @@ def _cut_length_problems(P, f, op, depth=2):
 
 
 def limit_counter(P):
-    """(name of the usize field of ExecutionEngine that is compared with a statement's LIMIT, [functions that add to it])"""
+    """(name of the field of ExecutionEngine that counts emitted rows against a statement's LIMIT, [functions that add to it]).
+    The field is a usize, or a private newtype / struct around one usize; comparisons and additions are looked for in the *views* of
+    the engine's functions, so accessor methods of such a newtype (`is_exhausted(limit)`, `record(n)`) are seen through."""
     adt = P.adts.get("sqlgrep::execution::execution_engine::ExecutionEngine")
     if not adt:
         return None, []
-    cands = [fl["name"] for v in adt["variants"] for fl in v["fields"] if fl["ty"] == "usize"]
-    found = None
-    for f in P.fns.values():
-        if f.target != "lib" or not f.spath.startswith("sqlgrep::execution::execution_engine::"):
+
+    def usize_like(ty):
+        if ty == "usize":
+            return True
+        a2 = P.adts.get(ty)
+        if a2 and len(a2["variants"]) == 1:
+            fl = a2["variants"][0]["fields"]
+            return len(fl) == 1 and fl[0]["ty"] == "usize"
+        return False
+    cands = [fl["name"] for v in adt["variants"] for fl in v["fields"] if usize_like(fl["ty"])]
+    views = []
+    for f0 in P.fns.values():
+        if f0.target != "lib" or f0.kind == "Closure" or not f0.spath.startswith("sqlgrep::execution::execution_engine::"):
             continue
+        if f0.spath not in PR.pinned_fns() and PR.pinned_fns():
+            continue     # a new helper: it is analysed inlined into its callers
+        views.append(PR.view(P, f0))
+    found = None
+    for f in views:
         for i, st in f.stmts():
             if st["k"] != "assign" or st["rv"]["k"] != "binop" or st["rv"]["op"] not in ("Ge", "Lt", "Gt", "Le", "Eq"):
                 continue
             sides = [st["rv"]["l"], st["rv"]["r"]]
-            names = [set(F.source_fields(f, x, depth=5)) if x["k"] in ("copy", "move") else set() for x in sides]
+            names = [set(F.provenance_fields(f, x, depth=8)) if x["k"] in ("copy", "move") else set() for x in sides]
             for c in cands:
                 if (c in names[0]) != (c in names[1]):
                     other = sides[1] if c in names[0] else sides[0]
-                    if other["k"] in ("copy", "move") and any(
-                            (o.place is not None and "limit" in place_fields(o.place)) or
-                            (o.kind == "arg" and f.local_ty(o.arg) == "core::option::Option<usize>")
-                            for o in F.origins(f, other, depth=8)):
+                    if other["k"] in ("copy", "move") and ("limit" in F.provenance_fields(f, other, depth=10) or any(
+                            o.kind == "arg" and f.local_ty(o.arg) == "core::option::Option<usize>" for o in F.origins(f, other, depth=8))):
                         found = c
     if found is None:
         return None, []
     writers = []
-    for f in P.fns.values():
-        if f.target != "lib" or f.kind == "Closure":
+    for f in views:
+        if f.spath.endswith("::new"):
             continue
-        if any(st["k"] == "assign" and st["pl"]["p"] and found in place_fields(st["pl"]) and st["rv"]["k"] != "aggr" for i, st in f.stmts()):
+        if any(st["k"] == "assign" and st["pl"]["p"] and found in place_fields(st["pl"]) and st["rv"]["k"] != "aggr" for i, st in f.stmts()) or \
+                any(st["k"] == "assign" and st["rv"]["k"] == "binop" and st["rv"]["op"] in ("Add", "AddWithOverflow") and
+                    any(x["k"] in ("copy", "move") and found in F.provenance_fields(f, x, depth=8) for x in (st["rv"]["l"], st["rv"]["r"]))
+                    for i, st in f.stmts()):
             writers.append(f)
     return found, writers
 
@@ -181,12 +198,12 @@ def run(R):
         adds = []
         for i, st in ul.stmts():
             if st["k"] == "assign" and st["rv"]["k"] == "binop" and st["rv"]["op"] in ("Add", "AddWithOverflow", "AddUnchecked") and \
-                    any(counter in F.source_fields(ul, side, depth=4) for side in (st["rv"]["l"], st["rv"]["r"]) if side["k"] in ("copy", "move")):
+                    any(counter in F.provenance_fields(ul, side, depth=8) for side in (st["rv"]["l"], st["rv"]["r"]) if side["k"] in ("copy", "move")):
                 adds.append(st)
         fed = []
         for st in adds:
             for side in (st["rv"]["l"], st["rv"]["r"]):
-                if side["k"] in ("copy", "move") and counter in F.source_fields(ul, side, depth=4):
+                if side["k"] in ("copy", "move") and counter in F.provenance_fields(ul, side, depth=8):
                     continue
                 fed += [o for o in F.origins(ul, side, depth=8)] if side["k"] in ("copy", "move") else [None]
         if not adds:
@@ -220,8 +237,8 @@ def run(R):
             if a.get("kind") == "discr" and a.get("call") is None and "limit" in place_fields(a["place"]) and val == "None":
                 return True
             if a.get("kind") == "binop" and a.get("op") in ("Ge", "Lt", "Gt", "Le"):
-                l_is = a["l"]["k"] in ("copy", "move") and counter in F.source_fields(efv, a["l"], depth=5)
-                r_is = a["r"]["k"] in ("copy", "move") and counter in F.source_fields(efv, a["r"], depth=5)
+                l_is = a["l"]["k"] in ("copy", "move") and counter in F.provenance_fields(efv, a["l"], depth=8)
+                r_is = a["r"]["k"] in ("copy", "move") and counter in F.provenance_fields(efv, a["r"], depth=8)
                 if not (l_is or r_is):
                     return False
                 op = a["op"]
@@ -271,6 +288,20 @@ def run(R):
         owner = f
         while owner.kind == "Closure" and owner.parent_key in P.fns:
             owner = P.fns[owner.parent_key]
+        # a helper that did not exist on the pinned tree belongs to the function(s) it was carved out of
+        hops = 0
+        while owner.spath not in PR.pinned_fns() and PR.pinned_fns() and hops < 3:
+            callers = set()
+            for h in P.fns.values():
+                if h.target == owner.target and any(owner.key in P.callee_keys(h, c) for c in h.calls):
+                    o2 = h
+                    while o2.kind == "Closure" and o2.parent_key in P.fns:
+                        o2 = P.fns[o2.parent_key]
+                    callers.add(o2.key)
+            if len(callers) != 1:
+                break
+            owner = P.fns[next(iter(callers))]
+            hops += 1
         if owner.spath == ENG + "execute":
             R.ok("C07.agg", "limit-reader|" + owner.spath, "the one place where LIMIT is applied", owner.loc(), nontrivial=False)
         else:
